@@ -2,6 +2,7 @@ package main
 
 import (
 	"fmt"
+	"go/token"
 	"sort"
 	"strings"
 
@@ -69,6 +70,76 @@ func checkC20(c *Ctx) {
 			c.bad("C20.parse", what, fmt.Sprintf("and() branches on %v, or() on %v: one of them mis-handles some nesting of negations", ca, co), p.fnPos(fa))
 		default:
 			c.ok("C20.parse", what, fmt.Sprintf("both branch on %v", ca), p.fnPos(fa))
+		}
+	}
+
+	// linear secret sharing over the formula: at an and-gate one input gets a fresh random matrix and the other
+	// the difference to the gate's share. The random matrix has to stay one of the two shares: if it becomes
+	// the destination of a later matrix operation, one input carries the whole secret and the other nothing
+	{
+		tkp := "abe/cpabe/tkn20/internal/tkn"
+		f := p.Func(tkp, "Formula", "share")
+		what := "(*tkn.Formula).share: the matrix drawn at random for an and-gate stays one of the gate's two input shares"
+		if f == nil {
+			c.undecided("C20.share", what, "anchor function does not resolve", "")
+		} else {
+			n := 0
+			var bad []string
+			for _, b := range f.Blocks {
+				for i, in := range b.Instrs {
+					st, ok := in.(*ssa.Store)
+					if !ok {
+						continue
+					}
+					ex, ok := st.Val.(*ssa.Extract)
+					if !ok {
+						continue
+					}
+					cl, ok := ex.Tuple.(*ssa.Call)
+					if !ok || normName(p.staticCalleeName(&cl.Call)) != tkp+".randomMatrixZp" {
+						continue
+					}
+					n++
+					slot := descAddr(st.Addr)
+					// later uses of the same slot, in blocks this store dominates
+					for _, b2 := range f.Blocks {
+						if !b.Dominates(b2) {
+							continue
+						}
+						for j, in2 := range b2.Instrs {
+							if b2 == b && j <= i {
+								continue
+							}
+							ci, ok := in2.(ssa.CallInstruction)
+							if !ok || len(ci.Common().Args) == 0 {
+								continue
+							}
+							ld, ok := ci.Common().Args[0].(*ssa.UnOp)
+							if !ok || ld.Op != token.MUL || descAddr(ld.X) != slot {
+								continue
+							}
+							cal := ci.Common().StaticCallee()
+							if cal == nil || cal.Blocks == nil {
+								continue
+							}
+							for _, w := range p.Mod().of(cal) {
+								if w.Root == "param#0" {
+									bad = append(bad, fmt.Sprintf("the random matrix stored at %s is overwritten by %s at %s", p.pos(st.Pos()), shortCallee(p.staticCalleeName(ci.Common())), p.pos(in2.Pos())))
+									break
+								}
+							}
+						}
+					}
+				}
+			}
+			switch {
+			case n == 0:
+				c.bad("C20.share", what, "no random matrix is drawn: the shares of an and-gate are not randomised", p.fnPos(f))
+			case len(bad) > 0:
+				c.bad("C20.share", what, strings.Join(bad, "; ")+": that input carries the whole share of the gate and the other input nothing", p.fnPos(f))
+			default:
+				c.ok("C20.share", what, fmt.Sprintf("%d random draw(s), none overwritten", n), p.fnPos(f))
+			}
 		}
 	}
 
